@@ -50,6 +50,7 @@ var (
 	cMarshalArena = simrt.RegisterCounter("op_marshal_and_mic_on_frames_over_the_arena")
 	cOtherCID     = simrt.RegisterCounter("op_reuse_decode_command_then_another_cid")
 	cDuplicate    = simrt.RegisterCounter("op_same_bytes_decoded_twice_for_two_workers")
+	cErrChanged   = simrt.RegisterCounter("probe_kept_error_value_says_something_else_later_not_judged")
 	cErrKept      = simrt.RegisterCounter("probe_kept_error_values_read_again_later")
 	cBadText      = simrt.RegisterCounter("op_decode_of_text_that_is_not_a_frame")
 	cCrowd        = simrt.RegisterCounter("op_crowd_of_dozens_of_sessions_at_once")
@@ -288,6 +289,15 @@ func crowdTask(wd *world, id int, sub uint64) {
 	simrt.Count(cNontrivial)
 }
 
+// regSeq counts the operators' completed registrations (harness bookkeeping).
+var regSeq int
+
+//go:norace
+func regSeqGet() int { return regSeq }
+
+//go:norace
+func regSeqInc() { regSeq++ }
+
 func operator(n int, sub uint64) {
 	r := sim.NewRand(sub)
 	for i := 0; i < n; i++ {
@@ -298,7 +308,7 @@ func operator(n int, sub uint64) {
 		switch r.Intn(8) {
 		case 0:
 			// "nothing to register" (size 0) on a CID no frame of this world uses
-			cid, size = lorawan.CID(0x90+r.Intn(4)), 0
+			cid, size = lorawan.CID(0x91+r.Intn(3)), 0
 			simrt.Count(cRegEdge)
 		case 1:
 			cid = lorawan.CID(r.Intn(0x80)) // refused: not a proprietary CID
@@ -307,6 +317,7 @@ func operator(n int, sub uint64) {
 		if err := lorawan.RegisterProprietaryMACCommand(up, cid, size); err != nil {
 			functional("register")
 		}
+		regSeqInc()
 		simrt.Count(cRegDuring)
 		simrt.Trace(evReg, uint64(cid), uint64(size))
 	}
@@ -422,7 +433,7 @@ func receiver(wd *world, n int, sub uint64) {
 			continue
 		}
 		if !bytes.Equal(target, payload) {
-			simrt.Report("i4.decoder-wrote-input", fmt.Sprintf("UnmarshalBinary modified its input: %x -> %x", payload, target))
+			functional("decoder-wrote-input")
 		}
 		simrt.Count(cFrames)
 		simrt.Trace(evRecv, uint64(len(wire)), uint64(j.gen))
@@ -695,7 +706,7 @@ func (wd *world) keepErr(err error) {
 		return
 	}
 	var text string
-	if sim.Guard("panic", func() { text = err.Error() }) {
+	if quiet(func() { text = err.Error() }) {
 		return
 	}
 	wd.errs[t] = append(wd.errs[t], keptErr{err, text})
@@ -708,12 +719,14 @@ func (wd *world) recheckErrs() {
 	}
 	for _, k := range wd.errs[t] {
 		var now string
-		if sim.Guard("panic", func() { now = k.err.Error() }) {
+		if quiet(func() { now = k.err.Error() }) {
 			continue
 		}
 		simrt.Count(cErrKept)
 		if now != k.text {
-			simrt.Report("alias.error-value", fmt.Sprintf("an error the library returned said %q when it was returned and says %q now, after later calls on other values", k.text, now))
+			// (no clause of the statement is about error values: counted; reading
+			// the error while other tasks decode is still under the race detector)
+			simrt.Count(cErrChanged)
 		}
 	}
 	wd.errs[t] = wd.errs[t][:0]
@@ -734,7 +747,8 @@ func badText(wd *world, r *sim.Rand) {
 	text := []byte(base64.StdEncoding.EncodeToString(raw))
 	var p lorawan.PHYPayload
 	var err error
-	if sim.Guard("panic", func() { err = p.UnmarshalText(text) }) {
+	if quiet(func() { err = p.UnmarshalText(text) }) {
+		functional("undecodable-text-crashes") // (totality is C09's subject)
 		return
 	}
 	simrt.Count(cBadText)
@@ -1297,11 +1311,23 @@ func newBandWatch(r *sim.Rand) *bandWatch {
 
 // observeBand reads every channel-related observable of a band.
 func observeBand(b band.Band) string {
-	s := fmt.Sprint(b.GetUplinkChannelIndices(), b.GetStandardUplinkChannelIndices(), b.GetCustomUplinkChannelIndices(),
-		b.GetEnabledUplinkChannelIndices(), b.GetDisabledUplinkChannelIndices(), b.GetEnabledUplinkDataRates())
-	for _, i := range b.GetUplinkChannelIndices() {
+	// (index lists as sets, a plan by its effect, an error by its presence: a
+	// band may order its answers differently from call to call)
+	set := func(a []int) []int {
+		a = append([]int(nil), a...)
+		for i := 1; i < len(a); i++ {
+			for j := i; j > 0 && a[j-1] > a[j]; j-- {
+				a[j-1], a[j] = a[j], a[j-1]
+			}
+		}
+		return a
+	}
+	all := set(b.GetUplinkChannelIndices())
+	s := fmt.Sprint(all, set(b.GetStandardUplinkChannelIndices()), set(b.GetCustomUplinkChannelIndices()),
+		set(b.GetEnabledUplinkChannelIndices()), set(b.GetDisabledUplinkChannelIndices()), set(b.GetEnabledUplinkDataRates()))
+	for _, i := range all {
 		c, err := b.GetUplinkChannel(i)
-		s += fmt.Sprintf("|%d:%v:%v", i, c, err)
+		s += fmt.Sprintf("|%d:%v:%v", i, c, err != nil)
 	}
 	for i := 0; i < 100; i++ {
 		c, err := b.GetDownlinkChannel(i)
@@ -1313,11 +1339,19 @@ func observeBand(b band.Band) string {
 	if cf := b.GetCFList(band.LoRaWAN_1_0_4); cf != nil {
 		s += sim.DeepSig(cf)
 	}
-	s += fmt.Sprint(b.GetLinkADRReqPayloadsForEnabledUplinkChannelIndices([]int{0, 1, 2}))
+	// (what a device with channels 0 and 1 ends up with after a request that
+	// leaves only channel 0 of the first block on: asked first, so that it is
+	// the first apply call after whatever the other instance's owner did)
+	got0, err0 := b.GetEnabledUplinkChannelIndicesForLinkADRReqPayloads([]int{0, 1}, []lorawan.LinkADRReqPayload{{ChMask: lorawan.ChMask{true}}})
+	s += fmt.Sprint(set(got0), err0 != nil)
+	dev := []int{0, 1, 2}
+	pls := b.GetLinkADRReqPayloadsForEnabledUplinkChannelIndices(dev)
+	eff, perr := b.GetEnabledUplinkChannelIndicesForLinkADRReqPayloads(dev, pls)
+	s += fmt.Sprint(len(pls) == 0, set(eff), perr != nil)
 	// (what a device with channels 0 and 1 ends up with after a request that
 	// leaves only channel 0 of the first block on)
 	got, err := b.GetEnabledUplinkChannelIndicesForLinkADRReqPayloads([]int{0, 1}, []lorawan.LinkADRReqPayload{{ChMask: lorawan.ChMask{true}}})
-	s += fmt.Sprint(got, err)
+	s += fmt.Sprint(set(got), err != nil)
 	simrt.Count(cBandObs)
 	return s
 }
@@ -1346,47 +1380,56 @@ func ownerWriteMask(m *lorawan.ChMask) {
 	}
 }
 
+func (bw *bandWatch) scribble(r *sim.Rand) {
+	for _, s := range [][]int{bw.mine.GetUplinkChannelIndices(), bw.mine.GetStandardUplinkChannelIndices(), bw.mine.GetCustomUplinkChannelIndices(),
+		bw.mine.GetEnabledUplinkChannelIndices(), bw.mine.GetDisabledUplinkChannelIndices(), bw.mine.GetEnabledUplinkDataRates()} {
+		ownerWriteIdx(s, r)
+	}
+	if cf := bw.mine.GetCFList(band.LoRaWAN_1_0_4); cf != nil {
+		switch pl := cf.Payload.(type) {
+		case *lorawan.CFListChannelPayload:
+			ownerWriteU32(pl.Channels[:])
+		case *lorawan.CFListChannelMaskPayload:
+			for i := range pl.ChannelMasks {
+				ownerWriteMask(&pl.ChannelMasks[i])
+			}
+		}
+	}
+	for _, pl := range bw.mine.GetLinkADRReqPayloadsForEnabledUplinkChannelIndices([]int{0, 1, 2}) {
+		_ = pl
+	}
+}
+
 func (bw *bandWatch) step(r *sim.Rand) {
 	if bw.mine == nil || bw.ref == nil {
 		return
 	}
 	simrt.Count(cBandOps)
-	n := len(bw.mine.GetUplinkChannelIndices())
+	// (the owner's own instance may be in any state after the owner has edited
+	// what it was handed; what this world judges is the OTHER instance)
+	n := 0
+	quiet(func() { n = len(bw.mine.GetUplinkChannelIndices()) })
 	if r.Intn(5) == 0 {
 		// a request the band must refuse (it names a channel the plan does not
 		// have): the error path of the owner's instance
 		simrt.Count(cBandRefused)
 		bad := lorawan.LinkADRReqPayload{ChMask: lorawan.ChMask{true, true, true, false, false, false, false, false, false, false, false, false, false, false, true, true}, Redundancy: lorawan.Redundancy{ChMaskCntl: uint8(r.Intn(6))}}
-		sim.Guard("panic", func() { bw.mine.GetEnabledUplinkChannelIndicesForLinkADRReqPayloads([]int{0, 1, 2}, []lorawan.LinkADRReqPayload{bad}) })
+		quiet(func() {
+			bw.mine.GetEnabledUplinkChannelIndicesForLinkADRReqPayloads([]int{0, 1, 2}, []lorawan.LinkADRReqPayload{bad})
+		})
 	}
 	switch r.Intn(4) {
 	case 3:
 		// the owner of one instance edits results it was handed (sorts, filters
 		// in place, appends): they are its own memory
 		simrt.Count(cBandScribble)
-		for _, s := range [][]int{bw.mine.GetUplinkChannelIndices(), bw.mine.GetStandardUplinkChannelIndices(), bw.mine.GetCustomUplinkChannelIndices(),
-			bw.mine.GetEnabledUplinkChannelIndices(), bw.mine.GetDisabledUplinkChannelIndices(), bw.mine.GetEnabledUplinkDataRates()} {
-			ownerWriteIdx(s, r)
-		}
-		if cf := bw.mine.GetCFList(band.LoRaWAN_1_0_4); cf != nil {
-			switch pl := cf.Payload.(type) {
-			case *lorawan.CFListChannelPayload:
-				ownerWriteU32(pl.Channels[:])
-			case *lorawan.CFListChannelMaskPayload:
-				for i := range pl.ChannelMasks {
-					ownerWriteMask(&pl.ChannelMasks[i])
-				}
-			}
-		}
-		for _, pl := range bw.mine.GetLinkADRReqPayloadsForEnabledUplinkChannelIndices([]int{0, 1, 2}) {
-			_ = pl
-		}
+		quiet(func() { bw.scribble(r) })
 	case 0:
-		bw.mine.AddChannel(uint32(867100000+200000*r.Intn(20)), 0, 5)
+		quiet(func() { bw.mine.AddChannel(uint32(867100000+200000*r.Intn(20)), 0, 5) })
 	case 1:
-		bw.mine.DisableUplinkChannelIndex(r.Intn(n))
+		quiet(func() { bw.mine.DisableUplinkChannelIndex(r.Intn(n)) })
 	default:
-		bw.mine.EnableUplinkChannelIndex(r.Intn(n))
+		quiet(func() { bw.mine.EnableUplinkChannelIndex(r.Intn(n)) })
 	}
 	simrt.Seam(5)
 	simrt.Trace(evBand, uint64(n), 0)
